@@ -2,6 +2,7 @@
 From Coq Require Import List ZArith Bool Arith.
 Import ListNotations.
 Require Import WS PrettyTree PrettyTreeproof Gen_TextContent.
+Require Import Package Pkgproof Pkgproof5 PkgStepWF4 PkgHistproof.
 
 Definition crefill (a b : nat) (s : str) : str := s.
 
@@ -28,3 +29,22 @@ Lemma f15_witness_reads : readable_ws f15_witness = [[Ch 1; Sp; Ch 2]]
                           /\ readable_ws (pretty textual crefill false f15_witness) = [[Ch 1; Sp; Sp; Ch 2]]
                           /\ readable_ws (pretty textual crefill true f15_witness) = [[Ch 1; Sp; Ch 2]].
 Proof. vm_compute. repeat split. Qed.
+
+(* the package state machine with XML parts = PrettyTree trees and pretty = the repaired pretty_indent of this run's table:
+   a pretty save (zip or folder) followed by re-opening gives back, for every part, the element structure and every attribute —
+   the hypothesis [mask (pretty x) = mask x] of C03_roundtrip is discharged by C11_pretty_attrs_skeleton, for [mask = skeleton] *)
+Lemma pretty_roundtrip_skeleton : forall (bytes kid : Type) (ser : node -> bytes) (par : bytes -> node) (stamp : node -> node)
+    (entries : node -> mentries) (with_entries : mentries -> node -> node) (kids : node -> list kid) (mime : bytes -> mtype)
+    (mime_bytes : mtype -> bytes) (rdf0 : bytes),
+  (forall x, par (ser x) = x) ->
+  forall (s0 : fsys bytes kid * document node bytes) os, SInv node bytes kid s0 ->
+  let s := run node bytes kid ser par (pretty textual crefill true) stamp entries with_entries kids mime mime_bytes rdf0 FIXED s0 os in
+  forall t pk pty fs' d' c, pk <> PXml ->
+  d_save node bytes kid ser par (pretty textual crefill true) stamp entries kids mime rdf0 FIXED (fst s) (snd s) t pk pty = (fs', d', true) ->
+  c_open bytes kid fs' (tgt_id t) false = Some c ->
+  forall n, view node bytes kid par skeleton fs' (mkD c []) n = view node bytes kid par skeleton (fst s) d' n.
+Proof.
+  intros bytes kid ser par stamp entries with_entries kids mime mime_bytes rdf0 Hps s0 os I s t pk pty fs' d' c Hpk Hs Ho n.
+  apply (roundtrip_reachable node bytes kid ser par (pretty textual crefill true) stamp entries with_entries kids mime mime_bytes rdf0 skeleton Hps s0 os I t pk pty fs' d' c Hpk); [|exact Hs|exact Ho].
+  intros _ x. apply gen_pretty_skeleton.
+Qed.
